@@ -12,6 +12,7 @@ FRAGMENTS = [
     ("Coeff", "gen_coeff"),
     ("FPStencil", "gen_fp"),
     ("Options", "gen_options"),
+    ("MainProgram", "gen_main"),
 ]
 
 
